@@ -11,7 +11,11 @@ K3: the REAL GlobHandle over in-memory directory trees (gv_prune glob) vs the ex
 K4: read_csv([..]) / read_parquet([..]) / glob forms vs the union of the single files, partitions 1..8.
 K5: reusable per-partition state: read_text / read_csv / read_parquet over lists and globs of 3-8 files of
     deliberately different sizes (0, 1, around 4096, > 8000 bytes; descending / ascending / shuffled) under
-    partitions 1, 2, #files-1, #files+3: rows (content byte-exact) == rows of the single files == text_multi."""
+    partitions 1, 2, #files-1, #files+3: rows (content byte-exact) == rows of the single files == text_multi.
+K6: the glob() table function's batching: select * / count(*), count(distinct filename) from glob(pattern) under
+    batch_size {1,2,3,5,2048} x partitions {1,2,4} over directories with 0,1,5,9,21 files and a nested tree
+    (`**` patterns): the listed bag == the model's expansion (each path once, extracted glob_multi); read_text /
+    read_csv / read_parquet over the same kind of globs with batch sizes 1..5: each file's rows exactly once."""
 import fnmatch, json, os, shutil, struct, time
 from . import common
 
@@ -1107,6 +1111,152 @@ def stage_state_reuse(ctx, rng, gverif, gmodel):
             "sample": {"sql": send[0]["stmts"][1], "sizes": plan[0][4], "refuted_grow_only_variant(010203 then 09)": grow}}
 
 
+# ---------------------------------------------------------------- K6: the glob() table function's batching
+def stage_glob_batches(ctx, rng, gverif, gvprune, gmodel, known_ids):
+    base = os.path.join(WDIR, "gb")
+    shutil.rmtree(base, ignore_errors=True)
+    BS = [1, 2, 3, 5, 2048]
+    PS = [1, 2, 4]
+    gpq = common.build_ocaml("pq")
+    trees, specs = [], []
+    for n in ([0, 1, 5, 9, 21] if ctx["tier"] == "quick" else [0, 1, 2, 5, 9, 21, 40]):
+        trees.append(("flat%d" % n, {"n": "r", "c": [{"n": "f%02d.txt" % i} for i in range(n)]}, [["*.txt"], ["*"]] if n else [["*.txt"]]))
+    deep = {"n": "r", "c": [{"n": "a.txt"}, {"n": "b.txt"}, {"n": "s1", "c": [{"n": "c.txt"}, {"n": "d.txt"}, {"n": "e.txt"},
+            {"n": "s2", "c": [{"n": "g.txt"}, {"n": "h.txt"}, {"n": "s3", "c": [{"n": "i.txt"}, {"n": "j.txt"}]}]}]}, {"n": "t", "c": [{"n": "k.txt"}, {"n": "l.txt"}]}]}
+    trees.append(("deep", deep, [["**"], ["**", "*.txt"], ["*", "*.txt"], ["s1", "**"]]))
+    mem_cases, plan, content_of = [], [], {}
+    for name, tree, pats in trees:
+        root = os.path.join(base, name)
+
+        def wr(b, t):
+            os.makedirs(b, exist_ok=True)
+            for k in t.get("c", []):
+                q = os.path.join(b, k["n"])
+                if "c" in k:
+                    wr(q, k)
+                else:
+                    content_of[q] = "<%s>%s" % (os.path.relpath(q, base), "z" * (len(content_of) % 7))
+                    open(q, "w").write(content_of[q])
+        wr(os.path.join(root, "r"), tree)
+        for segs in pats:
+            mem_cases.append({"id": len(mem_cases), "op": "glob", "pattern": "r/" + "/".join(segs), "tree": tree, "chunk": 0})
+            plan.append((name, root, segs))
+    ev = glob_eval(mem_cases, common.run_harness(gvprune, [], mem_cases, timeout=300), gmodel)
+    # csv / parquet directories for the readers (5 and 9 files)
+    rdirs = []
+    for n in (5, 9):
+        d = os.path.join(base, "rd%d" % n)
+        os.makedirs(d)
+        rows = {}
+        for i in range(n):
+            rws = [(n * 100 + i, j) for j in range(1 + i % 4)]
+            open(os.path.join(d, "f%d.csv" % i), "w").write("a,b\n" + "".join("%d,%d\n" % r for r in rws))
+            specs.append('(file (out "%s") (rgs %d) (col (name "a") (type i64) (vals %s)) (col (name "b") (type i64) (vals %s)))' % (
+                os.path.join(d, "f%d.parquet" % i), 1 + i % 3, " ".join(str(r[0]) for r in rws), " ".join(str(r[1]) for r in rws)))
+            rows[i] = rws
+        rdirs.append((d, n, rows))
+    common.run_model(gpq, "write", specs, timeout=300)
+    send, checks = [], []
+    for pi, ((name, root, segs), e) in enumerate(zip(plan, ev)):
+        if e["status"] != "ok":
+            continue
+        use_abs = bool(pi % 2)
+        pre = (root if use_abs else rel(root)) + "/"
+        pat = pre + "r/" + "/".join(segs)
+        want_files = sorted(pre + p for p in e["impl"])          # the model's expansion (faithful walk)
+        spec_files = sorted(pre + p for p in e["spec"])
+        stmts, idx = [], []
+        for bs in BS:
+            for p in PS:
+                stmts += ["set batch_size to %d" % bs, "set partitions to %d" % p, "select * from glob('%s')" % pat,
+                          "select count(*), count(distinct filename) from glob('%s')" % pat]
+                idx.append((bs, p, len(stmts) - 2))
+        for bs in (1, 2, 3):
+            for p in (1, 2):
+                stmts += ["set batch_size to %d" % bs, "set partitions to %d" % p, "select content, _filename from read_text('%s')" % pat]
+                idx.append((bs, p, -(len(stmts) - 1)))
+        send.append({"id": "b%d" % pi, "mode": "threaded", "threads": 4, "stmts": stmts, "timeout_s": 120})
+        checks.append(("glob", pat, want_files, spec_files, idx, segs, None))
+    for d, n, rows in rdirs:
+        for kind, cols in (("csv", "a, b, _filename"), ("parquet", "a, b, _filename")):
+            pat = "%s/*.%s" % (rel(d), kind)
+            stmts, idx = [], []
+            for bs in (1, 2, 3, 5):
+                for p in (1, 2, 4):
+                    stmts += ["set batch_size to %d" % bs, "set partitions to %d" % p, "select %s from read_%s('%s')" % (cols, kind, pat)]
+                    idx.append((bs, p, len(stmts) - 1))
+            send.append({"id": "r%d%s" % (n, kind), "mode": "threaded", "threads": 4, "stmts": stmts, "timeout_s": 120})
+            want = sorted(json.dumps(["I%d" % a, "I%d" % b, "S%s/f%d.%s" % (rel(d), i, kind)]) for i in range(n) for (a, b) in rows[i])
+            checks.append((kind, pat, want, None, idx, None, None))
+    real = common.run_harness(gverif, "sql", send, timeout=1800)
+    # the model's emission for every (n, bs, p): each index exactly once
+    mlines, mkeys = [], []
+    for kind, pat, want, spec_files, idx, segs, _ in checks:
+        if kind == "glob":
+            for bs, p, si in idx:
+                if si > 0 and (len(want), bs, p) not in mkeys:
+                    mkeys.append((len(want), bs, p))
+                    mlines.append("(globpull %d %d %d)" % (p, bs, len(want)))
+    mouts = common.run_model(gmodel, "run", mlines, timeout=300) if mlines else []
+    viol, known, st, distinct = [], {}, {"statements": 0, "equal_model_expansion": 0, "model_emissions_exact": 0, "reader_scans_small_batches": 0}, set()
+    for (n, bs, p), o in zip(mkeys, mouts):
+        if sorted(int(x) for x in o.split()) == list(range(n)):
+            st["model_emissions_exact"] += 1
+        else:
+            viol.append({"what": "model/MultiFile.v glob_multi does not emit every path once", "replay": {"n": n, "batch": bs, "partitions": p, "model": o}, "no_input": True})
+    for (kind, pat, want, spec_files, idx, segs, _), sd, r in zip(checks, send, real):
+        rs = r.get("results") or []
+        for bs, p, si in idx:
+            st["statements"] += 1
+            cfg = ["set batch_size to %d" % bs, "set partitions to %d" % p]
+            if kind == "glob" and si > 0:
+                g, cnt = (rs[si] if si < len(rs) else None), (rs[si + 1] if si + 1 < len(rs) else None)
+                fg, fc = sql_fail(g), sql_fail(cnt)
+                got = None if fg else sorted(x[0][1:] for x in g["rows"])
+                gotc = None if fc else cnt["rows"]
+                wantc = [["I%d" % len(want), "I%d" % len(set(want))]]
+                if got == want and gotc == wantc:
+                    st["equal_model_expansion"] += 1
+                    distinct.add((tuple(segs), len(want), bs, p))
+                    if want != spec_files and "glob-dstar-not-last" in known_ids and dstar_not_last(segs):
+                        known.setdefault("glob-dstar-not-last", {"n": 0, "example": "select * from glob('%s') lists %d file(s), %d match" % (pat, len(want), len(spec_files))})["n"] += 1
+                    elif want != spec_files:
+                        viol.append({"what": "glob() differs from the files matching the pattern", "replay": {"sql": cfg + [sd["stmts"][si]], "want": spec_files, "got": got}, "no_input": False})
+                    continue
+                rep = sorted(set(x for x in (got or []) if got.count(x) > 1))
+                viol.append({"what": "the glob() table function does not list every expanded path exactly once (batch_size %d, partitions %d)" % (bs, p),
+                             "replay": {"dir": os.path.dirname(pat), "sql": cfg + [sd["stmts"][si], sd["stmts"][si + 1]], "failure": [fg, fc],
+                                        "want_paths": want, "got_paths": got, "listed_more_than_once": rep[:5],
+                                        "never_listed": [x for x in want if got is not None and x not in got][:5], "count_row": gotc,
+                                        "how": "directory tree written by vlib/c11.py stage_glob_batches; run the sql with gverif sql from " + os.getcwd()}, "no_input": False})
+                break
+            else:
+                si = abs(si)
+                res = rs[si] if si < len(rs) else None
+                f_ = sql_fail(res)
+                if kind == "glob":
+                    wantr = sorted(json.dumps(["S" + content_of[os.path.abspath(x)], "S" + x]) for x in want)
+                    if not want and f_ and "No files for path" in f_:
+                        got = []
+                    else:
+                        got = None if f_ else sorted(json.dumps(x) for x in res["rows"])
+                else:
+                    wantr = want
+                    got = None if f_ else sorted(json.dumps(x) for x in res["rows"])
+                st["reader_scans_small_batches"] += 1
+                if got == wantr:
+                    st["equal_model_expansion"] += 1
+                    distinct.add((kind, len(wantr), bs, p))
+                    continue
+                viol.append({"what": "a reader over a glob does not return each matching file's rows exactly once (batch_size %d, partitions %d)" % (bs, p),
+                             "replay": {"sql": cfg + [sd["stmts"][si]], "failure": f_, "want_rows": len(wantr), "got_rows": None if got is None else len(got),
+                                        "first_unexpected": [x for x in (got or []) if x not in wantr][:2]}, "no_input": False})
+                break
+    norev = common.run_model(gmodel, "run", ["(globnorev 2 5)"])[0]
+    return {"stats": st, "viol": viol, "known": known, "distinct": len(distinct),
+            "sample": {"sql": send[0]["stmts"][:4] if send else None, "refuted_variant_without_rev(cap 2, 5 paths)": norev}}
+
+
 KNOWN_TEXT = {
     "glob-dstar-not-last": "`**` followed by another segment never stands for zero directories (and `**/**` lists a directory once per split): matching files are omitted or returned twice (glob.rs GlobHandle::poll_expand, source TODO)",
 }
@@ -1144,11 +1294,13 @@ def run(ctx):
     k4 = stage_multi(ctx, rng, gverif, gmodel, known_ids)
     tm["K4"] = round(time.time() - t1, 1); t1 = time.time()
     k5 = stage_state_reuse(ctx, rng, gverif, gmodel)
-    tm["K5"] = round(time.time() - t1, 1)
-    prop_viol = k3["viol"] + k3b["viol"] + k2["viol"] + k4["viol"] + k5["viol"]
+    tm["K5"] = round(time.time() - t1, 1); t1 = time.time()
+    k6 = stage_glob_batches(ctx, rng, gverif, gvprune, gmodel, known_ids)
+    tm["K6"] = round(time.time() - t1, 1)
+    prop_viol = k3["viol"] + k3b["viol"] + k2["viol"] + k4["viol"] + k5["viol"] + k6["viol"]
     out["violations"] += prop_viol
     merged = {}
-    for src in (k2["known"], k3["known"], k3b["known"]):
+    for src in (k2["known"], k3["known"], k3b["known"], k6["known"]):
         for kid, info in src.items():
             m = merged.setdefault(kid, {"n": 0, "examples": []})
             m["n"] += info["n"]
@@ -1176,13 +1328,13 @@ def run(ctx):
                          "pushed filters of a query are read from the engine's own EXPLAIN (data_scan_filters)",
                          "modelled not verified: column_prune.rs / scan_filter.rs rewriting (checked through SQL only), the partition assignment of files (model/MultiFile.v is checked at the level of result bags only), S3/GCS/HTTP directory handles"],
         "theorems": obligations,
-        "evaluations": k1["cases"] + k3["stats"]["cases"] + k3b["stats"]["patterns"] * 2 + k2["stats"]["queries"] + k4["stats"]["scans"] + k5["stats"]["scans"],
-        "distinct_nontrivial": k1["distinct"] + k3["distinct"] + k2["distinct"] + k4["distinct"] + k5["distinct"],
+        "evaluations": k1["cases"] + k3["stats"]["cases"] + k3b["stats"]["patterns"] * 2 + k2["stats"]["queries"] + k4["stats"]["scans"] + k5["stats"]["scans"] + k6["stats"]["statements"],
+        "distinct_nontrivial": k1["distinct"] + k3["distinct"] + k2["distinct"] + k4["distinct"] + k5["distinct"] + k6["distinct"],
         "rule": "K1: real should_prune/from_thrift output string == extracted model's, every generated (type, statistics, constants); distinct = (type, op, outcome, constant kinds, bounds present). K3: real GlobHandle path list == extracted walk (exact order when the directory lists at once, bag otherwise) and == declarative matches unless the pattern is in the known class; distinct = (segments, matches, chunking). K2: rows of SELECT..FROM read_parquet WHERE == rows over the materialised copy == rows computed from the table, per (query, partitions); distinct = (column types/statistics modes, row groups, projection, predicate shape, partitions, result size, model's dropped groups). K4: multi-file / glob scan bag == union of the files per partitions 1..8. K5: read_text / read_csv / read_parquet over lists and globs of 3-8 files of deliberately different sizes (0, 1, 4095..4097, > 8000 bytes; descending, ascending, shuffled), projections with and without content/_filename/_rowid, partitions 1, 2, #files-1, #files+3: rows (content byte-exact, char and byte lengths) == rows of the single files; read_text contents also == extracted text_multi.",
-        "samples": [k1["sample"], k3["sample"], k2["sample"], k4["sample"], k5["sample"]],
+        "samples": [k1["sample"], k3["sample"], k2["sample"], k4["sample"], k5["sample"], k6["sample"]],
         "prune_cases": k1["cases"], "prune_cases_true": k1["pruned_true"], "prune_model_mismatches": len(k1["mismatches"]),
         "glob_mem": k3["stats"], "glob_model_mismatches": len(k3["mismatches"]), "glob_disk": k3b["stats"],
-        "stage_seconds": tm, "parquet": k2["stats"], "multifile": k4["stats"], "state_reuse_different_sizes": k5["stats"], "exhaustive": False,
+        "stage_seconds": tm, "parquet": k2["stats"], "multifile": k4["stats"], "state_reuse_different_sizes": k5["stats"], "glob_table_function_batches": k6["stats"], "exhaustive": False,
     }
     out["assumptions"] = [
         "generated Parquet statistics are valid for the format (min/max of the chunk in the order the format prescribes, or wider bounds flagged inexact) and their bounds lie in the range of the logical type (the hypothesis C11_prune_sound_bounds_in_lrange needs for Int8/Int16/UInt8/UInt16; refuted without it); statistics that lie about the data are outside the property",
